@@ -55,6 +55,7 @@ fn dispatch_run(prop: &str, tier: Tier, shard: Shard, rep: &mut Report) {
         "C06" => props::c06::run(tier, shard, rep),
         "C07" => props::c07::run(tier, shard, rep),
         "C08" => props::c08::run(tier, shard, rep),
+        "C09" => props::c09::run(tier, shard, rep),
         "C10" => props::c10::run(tier, shard, rep),
         "C11" => props::c11::run(tier, shard, rep),
         "C12" => props::c12::run(tier, shard, rep),
@@ -83,6 +84,7 @@ fn dispatch_replay(prop: &str, case: &serde_json::Value, rep: &mut Report) {
         "C06" => props::c06::replay(case, rep),
         "C07" => props::c07::replay(case, rep),
         "C08" => props::c08::replay(case, rep),
+        "C09" => props::c09::replay(case, rep),
         "C10" => props::c10::replay(case, rep),
         "C11" => props::c11::replay(case, rep),
         "C12" => props::c12::replay(case, rep),
